@@ -189,7 +189,10 @@ D6 = ([("Sender", ":notcontains", "spam")], [("setflag", "\\Seen"), ("discard",)
 D7 = ([("Subject", ":contains", "core only")], [("keep",), ("stop",)], "anyof")  # needs no extension: its set renders without a require line
 D8 = ([("Subject", ":is", "flag me")], [("keep", ":flags", "\\Seen")], "anyof")  # imap4flags needed through a tag only
 D9 = ([("X-List", ":matches", "*")], [("fileinto", ":flags", ["\\Seen", "\\Flagged"], ":copy", "Lists"), ("stop",)], "allof")
-DEFS = {"d1": D1, "d2": D2, "d3": D3, "d4": D4, "d5": D5, "d6": D6, "d7": D7, "d8": D8, "d9": D9}
+D10 = ([("false",)], [("fileinto", "Never"), ("stop",)], "anyof")  # a filter whose own single test is the constant the disabled wrapper uses
+D11 = ([("true",)], [("keep",)], "allof")
+D12 = ([("Subject", ":is", "dup"), ("exists", "X-B"), ("Subject", ":is", "dup")], [("keep",)], "anyof")  # last condition equals the first
+DEFS = {"d1": D1, "d2": D2, "d3": D3, "d4": D4, "d5": D5, "d6": D6, "d7": D7, "d8": D8, "d9": D9, "d10": D10, "d11": D11, "d12": D12}
 
 
 def new_set(ns, name="t", **kw):
